@@ -70,19 +70,23 @@ Explains(c, D) == D # {} /\ c.tree = Stmt(Algorithm(c.toks, D))
 
 (* <<verdict, stage>> *)
 Judge(c) ==
-    LET toks == c.toks IN
-    IF ~InDomain(toks) THEN <<"bad", "domain">>
-    ELSE IF LexViewSeq(c.lexed) # LexViewSeq(toks)
-    THEN IF DevColon \in OnDevs /\ LexViewSeq(c.lexed) = LexViewSeq(DropColon(toks))
+    LET toks == c.toks
+        ss   == Stmts(toks)                       \* definition (A), evaluated once
+        want == LexViewSeq(toks)
+        got  == LexViewSeq(c.lexed)
+    IN
+    IF ~(IncOnlyLast(toks) /\ \A i \in 1..Len(ss) : AstOK(ss[i])) THEN <<"bad", "domain">>   \* ~InDomain(toks)
+    ELSE IF got # want
+    THEN IF DevColon \in OnDevs /\ got = LexViewSeq(DropColon(toks))
          THEN <<"known:" \o DevColon, "lex">>
          ELSE <<"bad", "lex">>
-    ELSE IF c.tree # Stmt(Expected(toks))
+    ELSE IF c.tree # Stmt(TreeSeq(ss, {"decl"}, FALSE))                    \* Expected(toks)
     THEN IF \E d \in TreeDevs : Explains(c, {d})
          THEN <<"known:" \o (CHOOSE d \in TreeDevs : Explains(c, {d})), "tree">>
          ELSE IF Explains(c, TreeDevs)
          THEN <<"known:" \o (CHOOSE d \in TreeDevs : TRUE), "tree">>
          ELSE <<"bad", "tree">>
-    ELSE IF c.ptree # Begin(ExpectedFull(toks)) THEN <<"bad", "ptree">>
+    ELSE IF c.ptree # Begin(TreeSeq(ss, {"decl"}, TRUE)) THEN <<"bad", "ptree">>   \* ExpectedFull(toks)
     ELSE IF c.val # c.pval THEN <<"bad", "val">>
     ELSE IF c.eff # c.peff THEN <<"bad", "eff">>
     ELSE IF c.st # c.pst THEN <<"bad", "state">>
